@@ -63,4 +63,15 @@ for r in rows:
     lines.append('| ' + ' | '.join(str(x).replace('|', '/') for x in r) + ' |')
 if not only:
     open('/verif/seeded/TABLE.md', 'w').write('\n'.join(lines) + '\n')
+else:
+    # partial run: merge the new rows into the existing table (sorted by name)
+    old = {}
+    try:
+        for ln in open('/verif/seeded/TABLE.md').read().splitlines()[2:]:
+            old[ln.split('|')[1].strip()] = ln
+    except FileNotFoundError:
+        pass
+    for ln in lines[2:]:
+        old[ln.split('|')[1].strip()] = ln
+    open('/verif/seeded/TABLE.md', 'w').write('\n'.join(lines[:2] + [old[k] for k in sorted(old)]) + '\n')
 print('\n'.join(lines))
